@@ -97,6 +97,32 @@ def run(ck, rng):
                              ("w,%s,%s,%s" % (bf_csv(bf), kk, hx(doc)), "wd,%s,%s,%s" % (bf_csv(bf), kk, hx(doc)))])
             cases.append("hist " + ";".join(build + [al[0], al[1]]))
             meta.append(("alias_" + al[0][0], items, "pair"))
+        if rng.random() < 0.35:
+            # mkdir / dry-run / verify in a jail: From-Root vs From-Markdown on the same pre-state, simple and massive,
+            # sometimes with a name that is not a single path element (both must reject and create nothing)
+            fitems = [(d, n) for d, n in items]
+            if rng.random() < 0.25 and len(fitems) > 1:
+                j = rng.randrange(len(fitems))
+                bad = rng.choice([b"..", b".", b"x/y", b"../esc"])
+                if all(not (dd == fitems[j][0] and nn == bad) for dd, nn in fitems):
+                    fitems[j] = (fitems[j][0], bad)
+            if all(b"\n" not in n and b"\r" not in n and n.strip() == n and n for _, n in fitems):
+                fbuild = random_build(rng, fitems)
+                fdoc = spell(fitems, plain_spelling(fitems))
+                exts = rng.choice(["-", "2e676f", "2e676f+2e6d64"])
+                dry = rng.choice("001")
+                pre = "d:746774" + rng.choice(["", "", "+d:" + hx(b"tgt/" + fitems[0][1]) if b"/" not in fitems[0][1] and fitems[0][1] not in (b".", b"..") else ""])
+                op = rng.choice(["hist", "hist", "mhist"])
+                if rng.random() < 0.6:
+                    # two histories (each starts in a fresh jail), compared with each other
+                    cases.append("%s %s" % (op, ";".join(fbuild + ["F," + pre, "M%s,0,%s,%s,746774,-,-,-,-" % (dep, dry, exts)])))
+                    meta.append(("mkdir" + ("_dry" if dry == "1" else "") + ("_massive" if op == "mhist" else ""), fitems, "fspair"))
+                    cases.append("%s %s" % (op, ";".join(["F," + pre, "m%s,%s,%s,746774,-,-,-,-,%s" % (dep, dry, exts, hx(fdoc))])))
+                    meta.append(("mkdir_md_side", fitems, "second"))
+                else:
+                    st = rng.choice("01")
+                    cases.append("%s %s" % (op, ";".join(fbuild + ["F," + pre, "V%s,0,%s,746774" % (dep, st), "v%s,%s,746774,%s" % (dep, st, hx(fdoc))])))
+                    meta.append(("verify" + ("_massive" if op == "mhist" else ""), fitems, "vpair"))
         if rng.random() < 0.3:
             # guards: nil node, non-root node; nothing may be written
             nonroot = rng.randrange(1, max(2, len([o for o in build if o[0] in "RA"])))
@@ -113,7 +139,7 @@ def run(ck, rng):
                 cases.append("hist " + ";".join(build + ["O,0,j,0,-,-,-,-,-"] + [o for o in build if o.startswith("A")][:3] + ["O,0,j,0,-,-,-,-,-"]))
                 meta.append(("add_idempotent", items, "idem"))
     impl, _ = run_impl(exe, cases)
-    model = run_model(cases)
+    model = run_model([c if not c.startswith("mhist") else "hist " + c[6:] for c in cases])
     broken = None
     for i, (name, items, kind) in enumerate(meta):
         ck.case(cases[i][:500], len(items) >= 3)
@@ -123,6 +149,13 @@ def run(ck, rng):
         if kind == "pair":
             if parts[-2] != parts[-1]:
                 bad = "From-Root gives %s, From-Markdown gives %s" % (parts[-2][:200], parts[-1][:200])
+        elif kind == "fspair":
+            other = impl[i + 1].split("|")[-1]
+            if parts[-1] != other:
+                bad = "MkdirFromRoot gives %s, MkdirFromMarkdown on the same pre-state gives %s" % (parts[-1][:200], other[:200])
+        elif kind == "vpair":
+            if parts[-2] != parts[-1]:
+                bad = "VerifyFromRoot gives %s, VerifyFromMarkdown gives %s" % (parts[-2][:200], parts[-1][:200])
         elif kind == "nil":
             if parts[-1] != "err:nil_node -":
                 bad = "nil node: got " + parts[-1][:100]
@@ -135,6 +168,6 @@ def run(ck, rng):
                 bad = "re-adding existing names changed the tree"
         if bad:
             ck.violation({"property": "C03", "kind": "root_vs_markdown", "class": name, "case": cases[i], "got": impl[i][-600:], "why": bad})
-        elif impl[i] != model[i]:
+        elif impl[i] != model[i] and not cases[i].startswith("mhist"):
             broken = broken or (cases[i][:1500], impl[i][-300:], model[i][-300:])
     return broken
